@@ -7,6 +7,7 @@ package classifier
 
 import (
 	"fmt"
+	"strings"
 	"testing"
 
 	"pgregory.net/rapid"
@@ -21,6 +22,33 @@ type c07Case struct {
 	PLines int       `json:"pl"`
 	SWords int       `json:"sw"`
 	SLines int       `json:"sl"`
+	// SynthN > 0: X is a synthetic document of SynthN distinct words (added to the corpus) from which SynthDrop words
+	// are missing at the head (or tail): partial copies right at the threshold boundary, where rounding slips in the
+	// candidate search show.
+	SynthN    int  `json:"sn,omitempty"`
+	SynthDrop int  `json:"sd,omitempty"`
+	SynthTail bool `json:"st,omitempty"`
+}
+
+func c07SynthWords(n int) []string {
+	out := make([]string, n)
+	for i := range out {
+		out[i] = fmt.Sprintf("syn%c%c%cq", 'a'+byte(i%26), 'a'+byte((i/26)%26), 'a'+byte((i/676)%26))
+	}
+	return out
+}
+
+func c07JoinLines(w []string) string {
+	var sb strings.Builder
+	for i, x := range w {
+		sb.WriteString(x)
+		if (i+1)%10 == 0 || i == len(w)-1 {
+			sb.WriteByte('\n')
+		} else {
+			sb.WriteByte(' ')
+		}
+	}
+	return sb.String()
 }
 
 func c07Gen(t *rapid.T) interface{} {
@@ -29,6 +57,20 @@ func c07Gen(t *rapid.T) interface{} {
 	c.X = genRecipe(t, c.Thr)
 	if !c.Corpus.Full {
 		c.Corpus = smallCorpusAround(t, c.X.docs())
+	}
+	if lib.IntN(t, 0, 6, "synthetic") == 0 {
+		c.Corpus = smallCorpusAround(t, nil)
+		c.Thr = lib.PickFloat(t, []float64{0.7, 0.75, 0.8, 0.8, 0.85, 0.9, 0.95}, "synthThr")
+		c.SynthN = lib.IntN(t, 20, 240, "synthN")
+		c.SynthDrop = int(float64(c.SynthN)*(1-c.Thr)) + lib.IntN(t, -1, 1, "synthDropDelta")
+		if c.SynthN-int(float64(c.SynthN)*c.Thr) > 0 && lib.Bool(t, "exactMargin") {
+			c.SynthDrop = c.SynthN - int(float64(c.SynthN)*c.Thr) // the largest number of missing words that can still match
+		}
+		if c.SynthDrop < 0 {
+			c.SynthDrop = 0
+		}
+		c.SynthTail = lib.IntN(t, 0, 2, "synthTail") == 0
+		c.X = recipe{}
 	}
 	blk := func(label string) (int, int) {
 		var w int
@@ -61,8 +103,22 @@ func c07Check(ci interface{}) lib.Outcome {
 	if c.Thr < 0.5 || c.Thr > 1 || c.PWords < 0 || c.SWords < 0 || c.PWords > 100000 || c.SWords > 100000 {
 		return lib.Outcome{Skip: "malformed"}
 	}
+	if c.SynthN > 0 {
+		if c.SynthN > 5000 || c.SynthDrop < 0 || c.SynthDrop >= c.SynthN {
+			return lib.Outcome{Skip: "malformed"}
+		}
+		c.Corpus.Synth = []synthDoc{{Cat: "License", Name: "Synth-C07", Variant: "license.txt", Text: c07JoinLines(c07SynthWords(c.SynthN))}}
+	}
 	cl := classifierFor(c.Thr, c.Corpus)
 	x := c.X.build(cl)
+	if c.SynthN > 0 {
+		w := c07SynthWords(c.SynthN)
+		if c.SynthTail {
+			x = []byte(c07JoinLines(w[:c.SynthN-c.SynthDrop]))
+		} else {
+			x = []byte(c07JoinLines(w[c.SynthDrop:]))
+		}
+	}
 	p := []byte(oovBlock(cl, 300000, c.PWords, c.PLines))
 	s := []byte(oovBlock(cl, 400000, c.SWords, c.SLines))
 	if len(x) > 0 && x[len(x)-1] != '\n' {
@@ -70,7 +126,10 @@ func c07Check(ci interface{}) lib.Outcome {
 	}
 	tx := ids(cl, x)
 	classes := recipeClasses(c.X)
-	if len(tx) < cl.q || len(tx) == 0 {
+	if c.SynthN > 0 {
+		classes = append(classes, "synthetic-partial-copy-at-threshold-boundary")
+	}
+	if len(tx) < refQ(c.Thr) || len(tx) == 0 {
 		return lib.Outcome{Skip: "x-shorter-than-q", Classes: classes}
 	}
 	full := append(append(append([]byte{}, p...), x...), s...)
@@ -125,7 +184,7 @@ func c07Check(ci interface{}) lib.Outcome {
 	}
 	o := lib.Outcome{Classes: classes, Nontrivial: len(lic) > 0 && c.PWords > 0}
 	if o.Nontrivial {
-		o.FP = fmt.Sprintf("%v|%s|%d|%d|%d", c.Thr, c.X.describe(), c.PWords, c.PLines, c.SWords)
+		o.FP = fmt.Sprintf("%v|%s|%d|%d|%d|%d|%d|%v", c.Thr, c.X.describe(), c.PWords, c.PLines, c.SWords, c.SynthN, c.SynthDrop, c.SynthTail)
 		o.Sample = map[string]interface{}{"threshold": c.Thr, "x": c.X.describe(), "prefix_words": c.PWords, "prefix_lines": dLine, "suffix_words": c.SWords, "matches_of_x": fmtRecs(canon(rx))}
 	}
 	return o
@@ -133,6 +192,6 @@ func c07Check(ci interface{}) lib.Outcome {
 
 func TestVerif_C07(t *testing.T) {
 	lib.Run(t, lib.Spec{ID: "C07", Part: "embedding",
-		Rule: "X = pristine / edited / head- or tail-truncated corpus documents and scenario files, alone, in context or concatenated (>= q words); P, S = blocks of 0-3000 verified OOV words on 1-200 lines; premise ids(P+X+S) = 0^|P| ids(X) 0^|S| (and lines) checked white-box; oracle: canonical Match(P+X+S) == Match(X) shifted; non-trivial = Match(X) has a license match and |P| > 0; distinct = distinct (threshold, X recipe, |P|, lines(P), |S|)",
+		Rule: "X = pristine / edited / head- or tail-truncated corpus documents and scenario files, alone, in context or concatenated (>= q words), or a synthetic document of 20-240 distinct words (added to the corpus) with exactly the tolerated number of words (+-1) missing at its head / tail; P, S = blocks of 0-3000 verified OOV words on 1-200 lines; premise ids(P+X+S) = 0^|P| ids(X) 0^|S| (and lines) checked white-box; oracle: canonical Match(P+X+S) == Match(X) shifted; non-trivial = Match(X) has a license match and |P| > 0; distinct = distinct (threshold, X recipe, |P|, lines(P), |S|)",
 		New:  func() interface{} { return &c07Case{} }, Gen: c07Gen, Check: c07Check})
 }
